@@ -1,23 +1,25 @@
 //! C15 executor.  One case per line:
-//!   `sub <ty> <x>` / `sup <ty> <x>`   x = bit pattern of the mask as an unsigned decimal; prints `R v v v ...`
-//!                                     (each item's bit pattern, unsigned decimal)
+//!   `sub <ty> <x> <lim>` / `sup <ty> <x> <lim>`   x = bit pattern of the mask as an unsigned decimal; prints
+//!                                     `R v v v ...` (each item's bit pattern, unsigned decimal)
 //!   `np a b c ...`                    next_permutation on a Vec<i64>; prints `R <0|1> a b c ...`
-//!   `ip a b c ...`                    iter_permutations(Vec<i64>); prints `R a b c ; a c b ; ...` (every item closed by `;`)
+//!   `ip <lim> a b c ...`              iter_permutations(Vec<i64>); prints `R a b c ; a c b ; ...` (every item closed by `;`)
 //!   `n4|n4d|n8 n m i j`               prints `R a b a b ...`
-//! Iterators are cut after LIMIT + 1 items (a longer output is wrong for every generated case).
+//! Iterators are cut after `lim` items; the generator passes one more than the longest correct output, so a cut
+//! output is always a wrong output (a broken iterator that never ends cannot hang or flood the check).
 use rlib_iter::*;
 use vh::p;
 
-const LIMIT: usize = 6000;
+const NB_LIMIT: usize = 9;
 
 macro_rules! masks {
     ($t:ty, $u:ty, $toks:expr) => {{
         let t = $toks;
         // same-width cast: the signed value with the given bit pattern
         let x = p::<$u>(t[2]) as $t;
+        let lim: usize = p(t[3]);
         let items: Vec<$t> = match t[0] {
-            "sub" => iter_submasks::<$t>(x).take(LIMIT + 1).collect(),
-            "sup" => iter_supermasks::<$t>(x).take(LIMIT + 1).collect(),
+            "sub" => iter_submasks::<$t>(x).take(lim).collect(),
+            "sup" => iter_supermasks::<$t>(x).take(lim).collect(),
             _ => unreachable!(),
         };
         let mut s = String::from("R");
@@ -31,7 +33,7 @@ macro_rules! masks {
 
 fn cells<I: Iterator<Item = (usize, usize)>>(it: I) -> String {
     let mut s = String::from("R");
-    for (a, b) in it.take(LIMIT + 1) {
+    for (a, b) in it.take(NB_LIMIT) {
         s.push_str(&format!(" {} {}", a, b));
     }
     s
@@ -67,9 +69,10 @@ fn main() {
             s
         }
         "ip" => {
-            let v: Vec<i64> = t[1..].iter().map(|s| p::<i64>(s)).collect();
+            let lim: usize = p(t[1]);
+            let v: Vec<i64> = t[2..].iter().map(|s| p::<i64>(s)).collect();
             let mut s = String::from("R");
-            for item in iter_permutations(v).take(LIMIT + 1) {
+            for item in iter_permutations(v).take(lim) {
                 for x in item {
                     s.push_str(&format!(" {}", x));
                 }
